@@ -496,16 +496,24 @@ def base_kind(spec):
 # ---------------------------------------------------------------- observation
 def snapshot(ad: Adapter, l):
     """Everything the properties call observable, in canonical form."""
-    def guarded(f):
+    def guarded(f, c=canon):
         try:
-            return canon(f())
+            return c(f())
         except Exception as e:  # noqa: BLE001
             return exc_value(e)[:3]
-    data = guarded(lambda: tuple(sorted(ad.data_items(l), key=repr)))
-    pend = guarded(lambda: tuple(sorted(ad.pending(l), key=repr)))
-    return {"data": data, "pending": pend, "npoints": guarded(lambda: int(l.npoints)),
-            "loss_real": guarded(lambda: l.loss(real=True)), "loss_exp": guarded(lambda: l.loss(real=False)),
-            "extras": guarded(lambda: ad.extras(l))}
+
+    def ident(x):
+        return x
+    data = guarded(lambda: tuple(sorted(ad.data_items(l), key=repr)), ident)
+    pend = guarded(lambda: tuple(sorted(ad.pending(l), key=repr)), ident)
+    s = {"data": data, "pending": pend, "npoints": guarded(lambda: int(l.npoints)),
+         "loss_real": guarded(lambda: l.loss(real=True)), "loss_exp": guarded(lambda: l.loss(real=False)),
+         "extras": guarded(lambda: ad.extras(l), ident)}
+    if ad.spec["kind"] == "Bal":
+        # what the children say right now (the BalancingLearner caches their losses)
+        s["fresh_real"] = guarded(lambda: max(c.loss(real=True) for c in l.learners))
+        s["fresh_exp"] = guarded(lambda: max(c.loss(real=False) for c in l.learners))
+    return s
 
 
 def diff_snap(a, b):
@@ -673,6 +681,28 @@ def gen_op(ad: Adapter, l, rng, handed, weights=None):
         same = rng.random() < 0.5 or not ad.retell_alt
         return ["tell", plain(p), plain(told_value(ad, l, p) if same else ad.alt_value(p))]
     return ["remove_unfinished"]
+
+
+def directed_ops(ad, l, rng):
+    """A scripted opening that reaches the states random histories rarely reach: everything handed out is told, more
+    points are requested and then discarded, and the learner is asked again."""
+    first = 33 if base_kind(ad.spec) == "Int" else rng.choice([4, 8, 9])
+    script = [("ask", first), ("tellall",), ("ask", rng.choice([3, 5])), ("discard",), ("ask", rng.choice([1, 2, 4])),
+              ("tellall",)]
+    got = []
+    for s in script:
+        if s[0] == "ask":
+            op = ["ask", s[1], True]
+            out = yield op
+            if is_exc(out):
+                return
+            got = list(out[1])
+        elif s[0] == "tellall":
+            for p in got:
+                yield ["tell", p, plain(ad.value(ad.point(p)))]
+            got = []
+        else:
+            yield ["remove_unfinished"]
 
 
 def known_points(ad: Adapter, l):
